@@ -776,7 +776,7 @@ def negation_family(ctx, n):
         ops = []
         for _k in range(rng.randrange(1, 4)):
             ops.append(rng.choice([('del', used), ('del', other), ('delrule', 0), ('delrule', 1), ('rebind', 'n', used), ('rebind', other, used),
-                                   ('seturi', used, 'u9')]))
+                                   ('seturi', used, 'u9'), ('settext-rejected', rng.choice(['@namespace b "v"; c|y {l:0}', '@namespace a "zz"; a|q{l:0} }}', '@namespace n "w"; x{ }} @import "late";']))]))
         case = {'text': text, 'ops': [list(o) for o in ops], 'cls': None, 'family': 'negation'}
         ctx.case(('negation', text, tuple(ops)))
         try:
@@ -795,6 +795,9 @@ def negation_family(ctx, n):
                         rr = sheet.cssRules[op[1]] if op[1] < sheet.cssRules.length else None
                         target = rr.namespaceURI if rr is not None and rr.type == rr.NAMESPACE_RULE else None
                         sheet.deleteRule(op[1])
+                    elif op[0] == 'settext-rejected':
+                        target = None
+                        sheet.cssText = op[1]
                     elif op[0] == 'rebind':
                         target = None
                         if op[2] in uri_of:
@@ -810,6 +813,12 @@ def negation_family(ctx, n):
                     ctx.violation('remove-used', dict(case, at=k), 'removing the namespace %r still used inside :not() was accepted' % target, KNOWN_PRED)
                 if op[0] != 'seturi' and not (op[0] == 'delrule' and target is None) and after != before:
                     ctx.violation('denotation-changed', dict(case, at=k), 'pairs before %r after %r' % (before, after), KNOWN_PRED)
+                by_rules = {}
+                for r_ in sheet.cssRules:
+                    if r_.type == r_.NAMESPACE_RULE:
+                        by_rules[r_.prefix] = r_.namespaceURI
+                if dict(sheet.namespaces.items()) != by_rules and len(set(by_rules.values())) == len(by_rules):
+                    ctx.violation('view-vs-rules', dict(case, at=k), 'namespaces mapping %r, @namespace rules %r' % (dict(sheet.namespaces.items()), by_rules), KNOWN_PRED)
                 undeclared = {ns for sel in after for _, ns, _ in sel if isinstance(ns, str) and ns and ns != ANY} - decl
                 if undeclared:
                     ctx.violation('used-undeclared', dict(case, at=k), 'selectors use %r, declared %r' % (sorted(undeclared), sorted(decl)), KNOWN_PRED)
@@ -844,13 +853,17 @@ def undeclared_and_moved_family(ctx, n):
         shape = rng.choice(SHAPES)
         wrap = rng.choice(['%s{l:0}', '@media tv{%s{l:0}}', '@media tv{@media print{%s{l:0}}}'])
         text = '@namespace p "u"; ' + (wrap % shape) + ' k{m:n}'
+        if rng.random() < 0.3:
+            # the prefix is "declared" by an @namespace rule that is refused where it stands
+            text = rng.choice(['@namespace p "u"; k0{l:0} @namespace x "w"; ', '@namespace p "u"; @variables {a:1} @namespace x "w"; ',
+                               '@namespace p "u"; @media tv{k0{l:0}} @namespace x "w"; ', '@namespace p "u"; @page{margin:0} @namespace x "w"; ']) + (wrap % shape) + ' k{m:n}'
         case = {'text': text, 'cls': None, 'family': 'undeclared'}
         ctx.case(('undeclared', text))
         try:
             sheet = cssutils.parseString(text)
             rules = [r for _, r in style_rules(sheet)]
             deep = all_pairs_deep(sheet)
-            if [r.selectorText for r in rules] != ['k']:
+            if [r.selectorText for r in rules if r.selectorText != 'k0'] != ['k'] or 'x' in dict(sheet.namespaces.items()):
                 ctx.violation('undeclared-accepted', case, 'style rules after the parse: %r (only k may remain)' % [r.selectorText for r in rules], KNOWN_PRED)
             for mode in (True, False):
                 cssutils.log.raiseExceptions = mode
